@@ -257,7 +257,9 @@ func c16Run(plan *C16Plan) (*c16Violation, map[string]bool) {
 			jh := *junk.TxHash()
 			_ = sc.send(&BaseTx{Tx: junk})
 			_ = sc.send(&Accept{MessageType: MessageTypeSendTx, Hash: &jh})
-			_ = sc.send(&Headers{RequestHeight: 7777, StartHeight: 7777})
+			// a block announcement: request height zero means "not a response to a request"
+			ah := c16Header(900 + idx)
+			_ = sc.send(&Headers{RequestHeight: 0, StartHeight: 7777, Headers: []*wire.BlockHeader{&ah}})
 			flags["unsolicited"] = true
 		}
 		if call.DelayMs > 0 {
